@@ -243,14 +243,35 @@ class ScopeLet(ScopeBase):
             return True
         return False
 
+    def _declared_global(self, name):
+        """True if `(global NAME)` was written inside this `let`, which
+        `define_nonlocal` records by mapping the name to itself."""
+        return self.bindings.get(name) == name
+
+    def _declaring_scope(self):
+        "The enclosing scope that `define_nonlocal` passes declarations to."
+        cur = self.parent
+        while isinstance(cur, ScopeLet):
+            cur = cur.parent
+        return cur
+
     @NodeRef.wrap
     def access(self, node):
-        self._rename_if_bound(node) or self.parent.access(node)
+        if self._declared_global(node.name):
+            # No `let` renames this name. Tell the scope that holds the
+            # declaration about the use, so that a later redeclaration
+            # is noticed.
+            self._declaring_scope().access(node)
+        else:
+            self._rename_if_bound(node) or self.parent.access(node)
         return node.node
 
     @NodeRef.wrap
     def assign(self, node):
-        self._rename_if_bound(node) or self.parent.assign(node)
+        if self._declared_global(node.name):
+            self._declaring_scope().assign(node)
+        else:
+            self._rename_if_bound(node) or self.parent.assign(node)
         return node.node
 
     def define(self, name):
@@ -263,7 +284,8 @@ class ScopeLet(ScopeBase):
         while isinstance(cur, ScopeLet):
             for name in node.names:
                 if root == "nonlocal":
-                    if name in cur.bindings and cur is not self:
+                    if (name in cur.bindings and cur is not self
+                            and not cur._declared_global(name)):
                         node.names.remove(name)
                 else:
                     cur.bindings[name] = name
